@@ -247,15 +247,17 @@ func batchStressMain(prop, tier string, seed uint64, out, replay string) error {
 	st := newStats()
 	var cases []coqCase
 	var jl []any
-	reps := 2
+	reps := 6
 	n := 200000
 	if tier == "thorough" {
-		reps = 10
+		reps = 30
 		n = 400000
 	}
 	id := 0
 	for rep := 0; rep < reps; rep++ {
-		for _, c := range []int{2, 3, 4, 8} {
+		// two workers: the bound then holds for every schedule without any timing assumption
+		// (DESIGN.md 14.5); with more workers it would need one
+		for _, c := range []int{2} {
 			// the first c-1 items are in flight and slow; the next one fails
 			failAt := c - 1 + r.intn(3)
 			var slow []int
@@ -280,7 +282,7 @@ func batchStressMain(prop, tier string, seed uint64, out, replay string) error {
 		}
 	}
 	st.Evaluations = len(cases)
-	st.Scope = fmt.Sprintf("stop mode, %d items, 2/3/4/8 workers, the first workers-1 items held in flight until 20..60 ms after an early item failed (the rest of the queue takes several times longer to drain), all other items instant; free-running (no gating); configured through options and through builder calls", n)
+	st.Scope = fmt.Sprintf("stop mode, %d items, 2 workers, item 0 held in flight until 20..60 ms after one of items 1..3 failed (the rest of the queue takes several times longer to drain), all other items instant; free-running (no gating); configured through options and through builder calls", n)
 	st.Rule = "seeded stress runs; non-trivial when at least one item was skipped"
 	nsh, err := writeShards(out, prop, "BatchStressCorr", "bxscen", "bstress", "spec_C09_stress", "spec_C09_stress", cases, nil)
 	if err != nil {
